@@ -3,6 +3,7 @@ package main
 import (
 	"fmt"
 	"math/big"
+	"strings"
 
 	"github.com/libsv/go-bk/base58"
 	"github.com/libsv/go-bk/bec"
@@ -600,6 +601,20 @@ func genC02(e *emitter, r *rng, thorough bool) {
 	}
 	keys := keyPool(r, nk)
 	hashes := hashPool(r, nh)
+	// one key, several messages through ONE caller-owned buffer, signatures held to the end (equal lengths, mixed
+	// lengths, the same message twice, a message after a longer one)
+	for i, d := range keys {
+		var hs []string
+		for j := 0; j < 4+r.intn(3); j++ {
+			h := hashes[(i*7+j*3)%len(hashes)]
+			if len(h) == 0 || len(h) > 64 {
+				h = r.bytes(32)
+			}
+			hs = append(hs, hx(h))
+		}
+		hs = append(hs, hs[0], hx(r.bytes(32)), hx(r.bytes(20)), hx(r.bytes(32)))
+		e.emit("sign.seq", "sign.seq "+nhx(d)+" "+strings.Join(hs, ","))
+	}
 	for i, d := range keys {
 		for j, h := range hashes {
 			if !thorough && (i+j)%3 != 0 {
